@@ -798,7 +798,8 @@ fn mpq1_case(cli: &Path, dir: &Path, c: &Value, seed: u64) -> Vec<Value> {
         "changelog_txt", "notes.text", "mydata\\x.bin", "dat", "zz.txt2", "azz.txt"];
     let nfiles = names.len();
     // --filter patterns by index: every shape of the filter contract (Cli.tla GlobMatch)
-    const PATTERNS: [&str; 8] = ["", "*", "*.txt", "data*", "*sub*", "zz.txt", "zz?txt", "*.TXT"];
+    // round 5: patterns of three and more literals (the same literal twice, literals that occur in some names only in another order)
+    const PATTERNS: [&str; 12] = ["", "*", "*.txt", "data*", "*sub*", "zz.txt", "zz?txt", "*.TXT", "*a*t*a*", "*t*x*t*", "*e*p*e*", "*z*.*z*"];
     let pre = c.get("pre").and_then(|x| x.as_str()).unwrap_or("empty").to_string();
     let mut b = ArchiveBuilder::new().version(if variant % 2 == 0 { FormatVersion::V1 } else { FormatVersion::V2 });
     // file classes: encrypted, fix-key encrypted, multi-sector (compressible), special files ((listfile) + (attributes))
@@ -885,13 +886,13 @@ fn mpq1_case(cli: &Path, dir: &Path, c: &Value, seed: u64) -> Vec<Value> {
                 a.push(s("--long"));
             }
             if opt >> 1 > 0 {
-                a.extend([s("--filter"), s(PATTERNS[(opt >> 1) as usize % 8])]);
+                a.extend([s("--filter"), s(PATTERNS[(opt >> 1) as usize % 12])]);
             }
         }
         "tree" => {
             a.extend([af, s("--no-color")]);
             if opt > 0 {
-                a.extend([s("--filter"), s(PATTERNS[opt as usize % 8])]);
+                a.extend([s("--filter"), s(PATTERNS[opt as usize % 12])]);
             }
         }
         "debug" => {
@@ -974,7 +975,7 @@ fn mpq1_case(cli: &Path, dir: &Path, c: &Value, seed: u64) -> Vec<Value> {
                 lv.sort();
                 // "No files found matching pattern" is the tool's rendering of an empty list
                 vw.retain(|l| !l.starts_with("No files found matching pattern"));
-                rtx.filt = s(PATTERNS[(opt >> 1) as usize % 8]);
+                rtx.filt = s(PATTERNS[(opt >> 1) as usize % 12]);
                 rtx.libnames = lv.clone();
             }
         }
@@ -987,7 +988,7 @@ fn mpq1_case(cli: &Path, dir: &Path, c: &Value, seed: u64) -> Vec<Value> {
                 let mut full: Vec<String> = n.iter().filter(|x| !x.starts_with('(')).cloned().collect();
                 full.sort();
                 lv = full.iter().map(|x| x.rsplit(['\\', '/']).next().unwrap_or(x).to_string()).collect();
-                rtx.filt = s(if opt == 0 { "*" } else { PATTERNS[opt as usize % 8] });
+                rtx.filt = s(if opt == 0 { "*" } else { PATTERNS[opt as usize % 12] });
                 rtx.libnames = full;
             }
         }
